@@ -116,7 +116,10 @@ def run(ctx: vlib.Ctx):
 
     # ---- 1. theorems
     ctx.theorems("props/C17_closed.vo", ["C17_closed_sound", "C17_attrs_closed_sound", "C17_binding_partial", "C17_same_name_refuted",
-                                          "C17_binding_refuted", "C17_clean_id_refuted", "C17_shard_sound"])
+                                          "C17_binding_refuted", "C17_clean_id_refuted", "C17_shard_sound", "C17_binding", "C17_first_import_wins_refuted",
+                                          "C17_prepopulated_refuted", "C17_not_at_qualname_refuted", "C17_local_root_refuted",
+                                          "C17_binding_chain_refuted", "C17_binding_ok_sound", "C17_assembly_ok_sound"])
+    ctx.coqchk(["VerifProps.C17_closed"])
     ctx.trusted += [
         "harness/c17_translate.py: Python ast -> Closed.v AST (fail-closed; interning of names is injective by construction); "
         "the abstraction itself: expressions = tree of loaded names, attribute access / calls / operators never bind names",
@@ -129,13 +132,20 @@ def run(ctx: vlib.Ctx):
         "the namespace of a program is fn.__globals__ of the function objects it defined (not the dict the builder keeps), snapshotted when the "
         "schema's build (or the call that compiled lazily) returns, and checked again at the end for every function reachable from the entry points; "
         "it only grows afterwards (setdefault never removes)",
+        "harness/c17_run.py program_world / program_assembly: extraction of the object model (which objects the chains touch, recorded imports via "
+        "run-time rebinding of CodeBuilder.ensure_object_imported / ensure_module_imported) and its serialisation into the shard files",
         "NsBind.clean_id models re.sub(r'\\W|^(?=\\d)', '_', s) for ASCII input only (compared with the implementation each run)",
     ]
     ctx.assumptions += [
         "quantification over schemas is by sampling (generated schemas of the stated grammar); for each captured program the closedness statement is "
         "proved for all inputs and all paths",
-        "closedness = no NameError/UnboundLocalError; AttributeError of the library's own making is covered by the checked holder-attribute inclusion "
-        "(Coq) and, for module/class attribute chains, by the oracle on the live namespaces (not by a theorem)",
+        "closedness = no NameError/UnboundLocalError and no AttributeError on a module / class / holder of the captured namespace: attribute chains rooted "
+        "at a global are resolved in the model against the captured objects (Closed.world: kind + attribute table per object, existence by real getattr when "
+        "the entry point becomes callable); chains rooted at a parameter/local are dynamic (input's business) and only covered by the attribute-name inclusion",
+        "stated exception: a generated attribute read by a lazy stub (def f: CodeBuilder(..).add_..(); return x.f(..)) that was never called is recorded as "
+        "installed by the preceding CodeBuilder call",
+        "identity binding per program is judged for the renderings the harness re-states independently (module.qualname chain, clean_id alias) of the schema "
+        "classes; an alias bound to the Annotated[...] form of the annotation or to the pre-slots original of a dataclass(slots=True) counts as that class",
     ]
 
     # ---- capture sanity
@@ -204,7 +214,10 @@ def run(ctx: vlib.Ctx):
     ctx.hist("programs", "distinct-modulo-uuid", len(texts))
 
     # ---- per-program kernel-checked closedness (translation validation)
+    t_workers = time.time() - t_start
+    t1 = time.time()
     coq_programs(ctx, programs, attr_cases, all_res)
+    ctx.notes.append(f"phase times: theorems+schemas {t_workers:.0f} s, translation + shard compilation {time.time() - t1:.0f} s (load {os.getloadavg()[0]:.0f})")
 
     for fam, r in all_res[:3]:
         if r["programs"]:
@@ -237,14 +250,15 @@ def coq_programs(ctx, programs, attr_cases, all_res):
     explained: dict[tuple, set] = {}
     for fam, r in all_res:
         for f in r.get("findings", []):
-            if f["signature"].get("kind") == "unresolved-name":
+            if f["signature"].get("kind") in ("unresolved-name", "unresolved-attr") or f["kind"] == "static-holder-attr":
                 explained.setdefault((fam, r["idx"]), set()).add(f.get("name"))
     syntax_reported = {(fam, r["idx"]) for fam, r in all_res for f in r.get("findings", [])
                        if f["signature"].get("kind") == "generated-syntax-error"}
     todo = []
     left_out = 0
     for fam, idx, p in programs:
-        if p["unres"] and set(p["unres"]) <= explained.get((fam, idx), set()):
+        un = set(p["unres"]) | set(p.get("chains_unres", []))
+        if un and un <= explained.get((fam, idx), set()):
             left_out += 1
             continue
         if (fam, idx) in syntax_reported and not _compiles(p["code"]):
@@ -252,7 +266,8 @@ def coq_programs(ctx, programs, attr_cases, all_res):
             continue
         todo.append((fam, idx, p))
     ctx.hist("programs", "left-out-of-proof(reported-as-failure)", left_out)
-    br = vlib.coq_make(["theories/Wire.vo", "theories/ClosedProofs.vo"])
+    heaps = {(fam, r["idx"]): r.get("heap", []) for fam, r in all_res}
+    br = vlib.coq_make(["theories/Wire.vo", "theories/ClosedProofs.vo", "theories/Binding.vo"])
     if not br.ok:
         ctx.not_shown("closedness proofs", "model does not build: " + (br.error or ""))
         return
@@ -268,28 +283,49 @@ def coq_programs(ctx, programs, attr_cases, all_res):
         seen = getattr(coq_programs, "_seen", set())
         seen |= keys
         coq_programs._seen = seen
-        txt, ok_idx, info = c17_translate.shard_file([p for _, _, p in chunk], acs, BUILTIN_NAMES)
+        txt, ok_idx, info = c17_translate.shard_file([dict(p, schema=(fam, idx)) for fam, idx, p in chunk], acs, BUILTIN_NAMES, heaps)
         for i, why in info["untranslated"].items():
             untranslated_total.append((chunk[i][0], chunk[i][1], why, chunk[i][2]["code"]))
         files.append((f"c17_closed_{ctx.seed}_{si // shard}", txt))
-        meta.append((chunk, ok_idx, [(fam, idx) for fam, idx, reads, sets in attr_cases if (fam, idx) in keys]))
+        meta.append((chunk, ok_idx, [(fam, idx) for fam, idx, reads, sets in attr_cases if (fam, idx) in keys], info))
     coq_programs._seen = set()
-    res = vlib.coq_eval_many(files, timeout=900, jobs=4 if ctx.quick() else 12)
+    jobs = 4 if ctx.quick() else 12
+    res = coqc_many(files, timeout=900, jobs=jobs)
+    # green shards: the kernel accepted `shard_closed`; for the others compile the diagnosis variant to learn which cases fail
+    redo = [k for k, (ok, out) in enumerate(res) if not ok]
+    if redo:
+        res2 = coqc_many([(files[k][0] + "_diag", meta[k][3]["diag"]) for k in redo], timeout=900, jobs=jobs)
+        for k, r2 in zip(redo, res2):
+            res[k] = (False, r2[1])
     n_ok = 0
     bad_programs = []
     bad_attrs = []
-    for (name, _), (ok, out), (chunk, ok_idx, akeys) in zip(files, res, meta):
+    n_bind = n_notinj = n_asm = 0
+    bad_bind = []
+    bad_asm = []
+    for (name, _), (ok, out), (chunk, ok_idx, akeys, info) in zip(files, res, meta):
         lists = _parse_lists(out)
-        if len(lists) < 2:
+        if ok and len(lists) == 1:
+            lists = [[], [], [], lists[0], []]       # accepted by the kernel; only the out-of-domain count is printed
+        if len(lists) < 5:
             ctx.not_shown(f"closedness shard {name}", "coqc failed: " + out[-1500:])
             continue
+        n_bind += len(info["bkeys"])
+        n_notinj += len(lists[3])
+        n_asm += len(info["askeys"])
+        for j in lists[2]:
+            fam, idx, p = chunk[info["bkeys"][j]]
+            bad_bind.append((fam, idx, p))
+        for j in lists[4]:
+            fam, idx, p = chunk[info["askeys"][j]]
+            bad_asm.append((fam, idx, p))
         for j in lists[0]:
             fam, idx, p = chunk[ok_idx[j]]
             bad_programs.append((fam, idx, p["code"]))
         for j in lists[1]:
             bad_attrs.append(akeys[j] if j < len(akeys) else ("?", j))
         n_ok += len(ok_idx) - len(lists[0])
-        if not ok and not lists[0] and not lists[1]:
+        if not ok and not any(lists[k] for k in (0, 1, 2, 4)):
             ctx.not_shown(f"closedness shard {name}", "coqc failed: " + out[-1500:])
     ctx.correspondence("per-program kernel-checked closedness (check_closed ns_i p_i = true)", len(todo), len(bad_programs) + len(untranslated_total),
                        f"shards={len(files)} accepted={n_ok} rejected={len(bad_programs)} untranslated={len(untranslated_total)}")
@@ -298,6 +334,22 @@ def coq_programs(ctx, programs, attr_cases, all_res):
     ctx.obligation("check_closed = true for every captured program (vm_compute, per shard)", not bad_programs and len(files) > 0,
                    f"{len(bad_programs)} rejected")
     ctx.obligation("holder attributes read are installed (attrs_closed = true per schema)", not bad_attrs, str(bad_attrs[:5]))
+    ctx.correspondence("identity binding over the captured namespaces (inj_ok -> binding_ok, per program that mentions a schema class)", n_bind,
+                       len(bad_bind), f"programs outside the domain of C17_binding (two schema classes with one rendering, or a root name the builder module already owns): {n_notinj}")
+    ctx.obligation("binding_ok = true wherever renderings are injective (vm_compute, per shard)", not bad_bind,
+                   "; ".join(f"{fam}/{idx}" for fam, idx, _ in bad_bind[:6]))
+    ctx.correspondence("namespace assembly: setdefault model over the recorded imports vs fn.__globals__ (assembly_ok)", n_asm, len(bad_asm),
+                       "; ".join(f"{fam}/{idx}" for fam, idx, _ in bad_asm[:6]))
+    ctx.obligation("assembly_ok = true for every captured namespace (vm_compute, per shard)", not bad_asm, f"{len(bad_asm)} mismatching")
+    for fam, idx, p in bad_bind[:4]:
+        ctx.not_shown(f"identity binding in a program of schema {fam}/{idx}",
+                      f"a rendered chain does not reach the schema class it was rendered from: expectations {p.get('expect')} globals {p.get('glob_f')}\n" + p["code"][:1500])
+    for fam, idx, p in bad_asm[:4]:
+        a = p.get("assembly") or {}
+        real = dict(a.get("real", []))
+        miss = [n for n, _ in a.get("imps", []) if n not in real]
+        ctx.not_shown(f"namespace assembly of a program of schema {fam}/{idx}",
+                      f"the function's real __globals__ differ from setdefault over the builder's imports; imported names missing from fn.__globals__: {sorted(set(miss))[:8]}\n" + p["code"][:1200])
     for fam, idx, why, code in untranslated_total[:5]:
         ctx.not_shown(f"closedness of a program of schema {fam}/{idx}", f"outside the translated subset ({why}):\n{code[:1500]}")
     for fam, idx, code in bad_programs[:8]:
@@ -307,6 +359,42 @@ def coq_programs(ctx, programs, attr_cases, all_res):
                       "check_closed = false: some path loads a name that is unbound / not in the namespace:\n" + code[:2500])
     for k in bad_attrs[:5]:
         ctx.not_shown(f"holder attributes of schema {k}", "a generated attribute is read that no captured program installs")
+
+
+def coqc_many(named: list[tuple[str, str]], timeout: int, jobs: int) -> list[tuple[bool, str]]:
+    """compile case files in parallel; output goes to files (a failing lemma can print more than a pipe buffer holds)"""
+    os.makedirs(vlib.CASES, exist_ok=True)
+    results: list = [None] * len(named)
+    pending = list(enumerate(named))
+    running = []
+    while pending or running:
+        while pending and len(running) < jobs:
+            i, (name, vtext) = pending.pop(0)
+            with open(os.path.join(vlib.CASES, f"{name}.v"), "w") as f:
+                f.write(vtext)
+            logp = os.path.join(vlib.CASES, f"{name}.log")
+            lf = open(logp, "w")
+            p = subprocess.Popen(["timeout", str(timeout), "coqc"] + vlib.COQ_FLAGS + [os.path.join("cases", f"{name}.v")],
+                                 cwd=vlib.COQ, stdout=lf, stderr=subprocess.STDOUT)
+            running.append((i, p, lf, logp))
+        still = []
+        for i, p, lf, logp in running:
+            if p.poll() is None:
+                still.append((i, p, lf, logp))
+            else:
+                lf.close()
+                with open(logp, errors="replace") as f:
+                    out = f.read()
+                results[i] = (p.returncode == 0, out[-20000:] if p.returncode == 0 else out[:6000] + "\n...\n" + out[-6000:])
+                for ext in (".log", ".vo", ".vok", ".vos", ".glob"):
+                    try:
+                        os.remove(os.path.join(vlib.CASES, named[i][0] + ext))
+                    except OSError:
+                        pass
+        running = still
+        if running:
+            time.sleep(0.05)
+    return [r if r is not None else (False, "not run") for r in results]
 
 
 def _compiles(code: str) -> bool:
